@@ -175,10 +175,17 @@ func checkCollection(r *vp.Recorder, ps []proto, distinctIDs bool) []byte {
 		}
 	}
 	// decode
+	// the decoder is handed a buffer of the caller's, which the caller reuses
+	// as soon as the call has returned (encoding.BinaryUnmarshaler: "must copy
+	// the data if it wishes to retain the data after returning")
 	md2 := metadata.Default.New()
-	if p, m := vp.Guard(func() { err = md2.UnmarshalBinary(got) }); p {
+	in := append([]byte(nil), got...)
+	if p, m := vp.Guard(func() { err = md2.UnmarshalBinary(in) }); p {
 		r.Violation("roundtrip:panic:"+classSig(ps), key, m, nil)
 		return got
+	}
+	for i := range in {
+		in[i] = 0xa5
 	}
 	if err != nil {
 		r.Outcome("roundtrip-error")
@@ -385,7 +392,7 @@ func firstLine(s string) string {
 
 func TestCheck(t *testing.T) {
 	r := vp.New("C11", "exploration",
-		"collections: every subset of 8 distinct protocol IDs (bitswap, graphsync-filecoin, gateway, 5 unknown codes) of size 1..N in every construction order; every variant combination (8 graphsync values, unknown payload lengths, bitswap and gateway handed over as pointer and by value) for subsets of size <=K in sorted and reversed order; collections with repeated IDs. Decoder: for every corpus encoding every single-byte substitution, every truncation, every boundary varint written at every byte offset over 1..3 bytes, unknown-protocol headers declaring every length of the systematic set (2^k-1, 2^k, 2^k+1 for all k; the 25 values below 2^63 and below 2^64; the size limit +-12) for 6 codes x 3 tails; unknown payloads of every length 0..MaxMetadataSize; graphsync-filecoin with identity piece CIDs of 0..300 digest bytes; two-protocol out-of-order concatenations, and all byte strings of length <=2. Non-trivial: collections of >=2 protocols; decoder inputs other than the unmodified corpus.",
+		"collections: every subset of 8 distinct protocol IDs (bitswap, graphsync-filecoin, gateway, 5 unknown codes) of size 1..N in every construction order; every variant combination (8 graphsync values, unknown payload lengths, bitswap and gateway handed over as pointer and by value) for subsets of size <=K in sorted and reversed order; collections with repeated IDs; the buffer handed to the decoder is overwritten by the caller right after the call, before the decoded metadata is compared. Decoder: for every corpus encoding every single-byte substitution, every truncation, every boundary varint written at every byte offset over 1..3 bytes, unknown-protocol headers declaring every length of the systematic set (2^k-1, 2^k, 2^k+1 for all k; the 25 values below 2^63 and below 2^64; the size limit +-12) for 6 codes x 3 tails; unknown payloads of every length 0..MaxMetadataSize; graphsync-filecoin with identity piece CIDs of 0..300 digest bytes; two-protocol out-of-order concatenations, and all byte strings of length <=2. Non-trivial: collections of >=2 protocols; decoder inputs other than the unmodified corpus.",
 		"unknown protocols are constructed the way the decoder builds them (payload holds code, length prefix and data)",
 		"collections with repeated IDs are only required to be ID-sorted and to round-trip as a multiset (order among equal IDs is not defined by the statement)",
 		"allocation bound used: 64 KiB + 64 x input length, measured with runtime/metrics /gc/heap/allocs:bytes (span-granular for small objects)",
